@@ -3588,4 +3588,240 @@ example : (sbS.nodeType 2).isLeaf = false ∧ sbS.plainType 2 = true ∧ sbtBloc
 example : NodeOpGuard sbS (.setNodeAttribute 0 "x" "1") sbDoc :=
   nodeOpGuard_of_B sbS _ sbDoc _ rfl (by decide)
 
+/-- **typing / inserting leaves needs no payload hypothesis**: for `replace(f, t, slice)` with a closed slice of
+    valid leaf / text nodes (`Slice.inlineLeaves`, `Slice.closedValid`: what `insert`, `replace_with` and typing hand
+    to `replace` for inline content), `OpResidual` follows from `DeleteResidual` (normal form of the recorded
+    slice and pair-alignment for a `ReplaceStep`; the full guard for a `ReplaceAroundStep`) — the
+    `C01.PayloadValid` conjunct of the family guard of the recorded `ReplaceStep` is discharged by
+    `C11.insertInline_emits_valid_payload` (schema guards `detB`, `fillersOKB`, `wrapOKB`, `labelsOKB`, `leafOkB`,
+    `textStableC`, `closableB`; the document valid with creatable element types) -/
+theorem insertInline_residual (S : Schema) (hdet : PM.C11.detB S = true) (hfill : S.fillersOKB = true)
+    (hwrap : S.wrapOKB = true) (hlab : S.labelsOKB = true) (hleaf : PM.FromDom.leafOkB S = true)
+    (hts : textStableC S = true) (hcl : S.closableB = true)
+    (tr tr1 : Tr) (hlen : tr.steps.length = tr.docs.length) (hv : C01.Valid S tr.doc)
+    (hattrs : S.nodeAttrsOK tr.doc = true) (f t : Nat) (sl : Slice) (hsl : sl.inlineLeaves S = true)
+    (hslv : sl.closedValid S = true)
+    (h : tr.runOp S (.replace f t sl) = some tr1) (hres : DeleteResidual S tr tr1) :
+    OpResidual S (.replace f t sl) tr tr1 := by
+  have h' : tr.planned (fun st => st.replaceF S f t sl) = some tr1 := h
+  obtain ⟨st', hrun, htr⟩ := Tr.planned_some h'
+  obtain ⟨r, hr, hstep⟩ := PSt.replaceF_spec S { tr := tr } st' f t sl hrun
+  simp only at hr hstep
+  cases r with
+  | none =>
+    simp only at hstep
+    have e : tr1.hist = tr.hist ++ [] := by rw [← htr, hstep]; simp
+    show HistAll (FamilyGuard S) (appended tr tr1) tr1.doc
+    rw [appended_eq e]
+    trivial
+  | some s =>
+    simp only at hstep
+    rw [htr] at hstep
+    obtain ⟨e, _⟩ := Tr.step_hist hlen hstep
+    show HistAll (FamilyGuard S) (appended tr tr1) tr1.doc
+    unfold DeleteResidual at hres
+    rw [appended_eq e] at hres ⊢
+    refine ⟨?_, trivial⟩
+    have hs := hres.1
+    obtain ⟨sl', hsl', hval⟩ := PM.C11.insertInline_emits_valid_payload S hdet hfill hwrap hlab hleaf hts hcl tr.doc f t sl
+      hsl hslv hv hattrs s hr
+    cases s with
+    | replace F T sl0 b =>
+      simp only at hs
+      simp only [Step.sliceOf, Option.some.injEq] at hsl'
+      subst hsl'
+      exact ⟨hs.1, hval, hs.2⟩
+    | replaceAround F T G1 G2 sl0 ins b => exact hs
+    | addMark _ _ _ => exact hs
+    | removeMark _ _ _ => exact hs
+    | attr _ _ _ => exact hs
+    | docAttr _ _ => exact hs
+    | addNodeMark _ _ => exact hs
+    | removeNodeMark _ _ => exact hs
+
+/-- what is still asked of the step a **deletion** records once *all* of its payload and shape conjuncts are
+    theorems (C11 `delete_emits_payloadValid`, `delete_emits_wf`, `delete_around_is_move`): normal form of the
+    slice and pair-alignment; for a `ReplaceAroundStep` also the fit guard `gapFitsBack` of the inverse (finding
+    C04-around-text-gap is its complement) -/
+def DeleteResidualAround (S : Schema) (tr tr1 : Tr) : Prop :=
+  HistAll (fun s d d' =>
+    match s with
+    | .replace _ _ sl _ => fnorm sl.content = true ∧ s.undoAligned d'
+    | .replaceAround f t gf gt sl _ _ => fnorm sl.content = true ∧ gapFitsBack S d f t gf gt = true ∧ s.undoAligned d'
+    | _ => FamilyGuard S s d d') (appended tr tr1) tr1.doc
+
+/-- **deletions need no payload or shape hypothesis, replace-around answers included**: `OpResidual` of
+    `delete` / the `delete_range` call follows from `DeleteResidualAround` — for the recorded step, whichever
+    kind, `C01.PayloadValid` (for a replace-around answer: of the slice with the gap content in place) is
+    `C11.delete_emits_payloadValid`; `Slice.wf`, `insert ≤ slice.size` and the order of range and gap are
+    `C11.delete_emits_wf`; the structure flag is not set (`C11.delete_around_is_move`), so the two
+    `content_between` conditions are vacuous -/
+theorem delete_residual_around (S : Schema) (hdet : PM.C11.detB S = true) (hfill : S.fillersOKB = true)
+    (hleaf : PM.FromDom.leafOkB S = true)
+    (tr tr1 : Tr) (hlen : tr.steps.length = tr.docs.length) (hv : C01.Valid S tr.doc)
+    (hattrs : S.nodeAttrsOK tr.doc = true) (f t : Nat) (hft : f ≤ t)
+    (h : tr.runOp S (.replace f t Slice.empty) = some tr1) (hres : DeleteResidualAround S tr tr1) :
+    OpResidual S (.replace f t Slice.empty) tr tr1 := by
+  have h' : tr.planned (fun st => st.replaceF S f t Slice.empty) = some tr1 := h
+  obtain ⟨st', hrun, htr⟩ := Tr.planned_some h'
+  obtain ⟨r, hr, hstep⟩ := PSt.replaceF_spec S { tr := tr } st' f t Slice.empty hrun
+  simp only at hr hstep
+  cases r with
+  | none =>
+    simp only at hstep
+    have e : tr1.hist = tr.hist ++ [] := by rw [← htr, hstep]; simp
+    show HistAll (FamilyGuard S) (appended tr tr1) tr1.doc
+    rw [appended_eq e]
+    trivial
+  | some s =>
+    simp only at hstep
+    rw [htr] at hstep
+    obtain ⟨e, _⟩ := Tr.step_hist hlen hstep
+    show HistAll (FamilyGuard S) (appended tr tr1) tr1.doc
+    unfold DeleteResidualAround at hres
+    rw [appended_eq e] at hres ⊢
+    refine ⟨?_, trivial⟩
+    have hs := hres.1
+    have hpv := PM.C11.delete_emits_payloadValid S hdet hleaf tr.doc f t hv hattrs s hr
+    obtain ⟨_, hshape⟩ := PM.C11.delete_emits_wf S hdet hfill tr.doc f t hv hattrs hft s hr
+    cases s with
+    | replace F T sl b =>
+      simp only at hs
+      exact ⟨hs.1, hpv, hs.2⟩
+    | replaceAround F T G1 G2 sl ins b =>
+      simp only at hs
+      have hsh := hshape F T G1 G2 sl ins b rfl
+      simp only [aroundShape, Bool.and_eq_true, decide_eq_true_eq] at hsh
+      obtain ⟨⟨⟨⟨hwf, hins⟩, g1⟩, g2⟩, g3⟩ := hsh
+      obtain ⟨_, hb, _⟩ := PM.C11.delete_around_is_move S tr.doc f t hv F T G1 G2 sl ins b hr
+      refine ⟨hs.1, hwf, hins, ⟨g1, g2, g3⟩, hpv, ?_, hs.2.1, hs.2.2⟩
+      intro hbt
+      rw [hb] at hbt
+      cases hbt
+    | addMark _ _ _ => exact hs
+    | removeMark _ _ _ => exact hs
+    | attr _ _ _ => exact hs
+    | docAttr _ _ => exact hs
+    | addNodeMark _ _ => exact hs
+    | removeNodeMark _ _ => exact hs
+
+/-- what is still asked of the step an **insertion of inline leaves** records, with the shape conjuncts of a
+    replace-around answer discharged (C11 `insertInline_emits_wf`, `fit_around_shape`): for a `ReplaceStep` normal
+    form and pair-alignment; for a `ReplaceAroundStep` normal form, the payload with the gap content in place,
+    the fit guard of the inverse and pair-alignment -/
+def InsertInlineResidualAround (S : Schema) (tr tr1 : Tr) : Prop :=
+  HistAll (fun s d d' =>
+    match s with
+    | .replace _ _ sl _ => fnorm sl.content = true ∧ s.undoAligned d'
+    | .replaceAround f t gf gt sl _ _ => fnorm sl.content = true ∧ C01.PayloadValid S d s ∧
+        gapFitsBack S d f t gf gt = true ∧ s.undoAligned d'
+    | _ => FamilyGuard S s d d') (appended tr tr1) tr1.doc
+
+/-- `insertInline_residual` with the shape of a replace-around answer discharged as well: `Slice.wf`,
+    `insert ≤ slice.size`, the order of range and gap (`C11.insertInline_emits_wf`) and the structure flag
+    (`C11.fit_around_shape`: never set by `replace_step`) -/
+theorem insertInline_residual_around (S : Schema) (hdet : PM.C11.detB S = true) (hfill : S.fillersOKB = true)
+    (hwrap : S.wrapOKB = true) (hlab : S.labelsOKB = true) (hleaf : PM.FromDom.leafOkB S = true)
+    (hts : textStableC S = true) (hcl : S.closableB = true)
+    (tr tr1 : Tr) (hlen : tr.steps.length = tr.docs.length) (hv : C01.Valid S tr.doc)
+    (hattrs : S.nodeAttrsOK tr.doc = true) (f t : Nat) (hft : f ≤ t) (sl : Slice) (hsl : sl.inlineLeaves S = true)
+    (hslv : sl.closedValid S = true)
+    (h : tr.runOp S (.replace f t sl) = some tr1) (hres : InsertInlineResidualAround S tr tr1) :
+    OpResidual S (.replace f t sl) tr tr1 := by
+  have h' : tr.planned (fun st => st.replaceF S f t sl) = some tr1 := h
+  obtain ⟨st', hrun, htr⟩ := Tr.planned_some h'
+  obtain ⟨r, hr, hstep⟩ := PSt.replaceF_spec S { tr := tr } st' f t sl hrun
+  simp only at hr hstep
+  cases r with
+  | none =>
+    simp only at hstep
+    have e : tr1.hist = tr.hist ++ [] := by rw [← htr, hstep]; simp
+    show HistAll (FamilyGuard S) (appended tr tr1) tr1.doc
+    rw [appended_eq e]
+    trivial
+  | some s =>
+    simp only at hstep
+    rw [htr] at hstep
+    obtain ⟨e, _⟩ := Tr.step_hist hlen hstep
+    show HistAll (FamilyGuard S) (appended tr tr1) tr1.doc
+    unfold InsertInlineResidualAround at hres
+    rw [appended_eq e] at hres ⊢
+    refine ⟨?_, trivial⟩
+    have hs := hres.1
+    obtain ⟨sl', hsl', hval⟩ := PM.C11.insertInline_emits_valid_payload S hdet hfill hwrap hlab hleaf hts hcl tr.doc f t sl
+      hsl hslv hv hattrs s hr
+    obtain ⟨_, hshape⟩ := PM.C11.insertInline_emits_wf S hdet hfill hwrap tr.doc f t sl hsl hv hattrs hft s hr
+    cases s with
+    | replace F T sl0 b =>
+      simp only at hs
+      simp only [Step.sliceOf, Option.some.injEq] at hsl'
+      subst hsl'
+      exact ⟨hs.1, hval, hs.2⟩
+    | replaceAround F T G1 G2 sl0 ins b =>
+      simp only at hs
+      have hsh := hshape F T G1 G2 sl0 ins b rfl
+      simp only [aroundShape, Bool.and_eq_true, decide_eq_true_eq] at hsh
+      obtain ⟨⟨⟨⟨hwf, hins⟩, g1⟩, g2⟩, g3⟩ := hsh
+      obtain ⟨hb, _⟩ := PM.C11.fit_around_shape S tr.doc f t sl F T G1 G2 sl0 ins b hr
+      refine ⟨hs.1, hwf, hins, ⟨g1, g2, g3⟩, hs.2.1, ?_, hs.2.2.1, hs.2.2.2⟩
+      intro hbt
+      rw [hb] at hbt
+      cases hbt
+    | addMark _ _ _ => exact hs
+    | removeMark _ _ _ => exact hs
+    | attr _ _ _ => exact hs
+    | docAttr _ _ => exact hs
+    | addNodeMark _ _ => exact hs
+    | removeNodeMark _ _ => exact hs
+
+/-- **any `replace(f, t, slice)`: no payload hypothesis for the recorded `ReplaceStep` when the Fitter's validity invariant
+    holds at the end of its loop** — `OpResidual` follows from `DeleteResidual` (normal form and pair-alignment for a
+    `ReplaceStep`; the full guard for a `ReplaceAroundStep`) for every request slice that is itself a valid payload,
+    given the decidable run hypothesis `fitEndInv S doc f t slice ≠ some false` (PM/FitGuards.lean: `placed` valid up to
+    its open sides and known to the frontier when the loop ends; evaluated by the driver on every generated request,
+    never false so far) — `C11.fit_emits_valid_payload_of_inv` -/
+theorem replace_residual_of_inv (S : Schema) (hdet : PM.C11.detB S = true) (hfill : S.fillersOKB = true)
+    (hleaf : PM.FromDom.leafOkB S = true) (hts : textStableC S = true) (hcl : S.closableB = true)
+    (tr tr1 : Tr) (hlen : tr.steps.length = tr.docs.length)
+    (hattrs : S.nodeAttrsOK tr.doc = true) (f t : Nat) (sl : Slice)
+    (hslv : openValid S sl.openStart sl.openEnd sl.content = true)
+    (hend : fitEndInv S tr.doc f t sl ≠ some false)
+    (h : tr.runOp S (.replace f t sl) = some tr1) (hres : DeleteResidual S tr tr1) :
+    OpResidual S (.replace f t sl) tr tr1 := by
+  have h' : tr.planned (fun st => st.replaceF S f t sl) = some tr1 := h
+  obtain ⟨st', hrun, htr⟩ := Tr.planned_some h'
+  obtain ⟨r, hr, hstep⟩ := PSt.replaceF_spec S { tr := tr } st' f t sl hrun
+  simp only at hr hstep
+  cases r with
+  | none =>
+    simp only at hstep
+    have e : tr1.hist = tr.hist ++ [] := by rw [← htr, hstep]; simp
+    show HistAll (FamilyGuard S) (appended tr tr1) tr1.doc
+    rw [appended_eq e]
+    trivial
+  | some s =>
+    simp only at hstep
+    rw [htr] at hstep
+    obtain ⟨e, _⟩ := Tr.step_hist hlen hstep
+    show HistAll (FamilyGuard S) (appended tr tr1) tr1.doc
+    unfold DeleteResidual at hres
+    rw [appended_eq e] at hres ⊢
+    refine ⟨?_, trivial⟩
+    have hs := hres.1
+    obtain ⟨sl', hsl', hval⟩ := PM.C11.fit_emits_valid_payload_of_inv S hdet hfill hleaf hts hcl tr.doc f t sl hslv hattrs s hr
+      hend
+    cases s with
+    | replace F T sl0 b =>
+      simp only at hs
+      simp only [Step.sliceOf, Option.some.injEq] at hsl'
+      subst hsl'
+      exact ⟨hs.1, hval, hs.2⟩
+    | replaceAround F T G1 G2 sl0 ins b => exact hs
+    | addMark _ _ _ => exact hs
+    | removeMark _ _ _ => exact hs
+    | attr _ _ _ => exact hs
+    | docAttr _ _ => exact hs
+    | addNodeMark _ _ => exact hs
+    | removeNodeMark _ _ => exact hs
+
 end PM.C04
